@@ -66,6 +66,13 @@ def extra_plans(tier, base_seed):
         sel = [(0, 0, 8), (0, 4, 4), (1, 5, 8), (3, 3, 2), (3, 4, 2)]
     else:
         sel = [(b, k, 16) for b in range(len(ENUM_BATCHES)) for k in range(len(ENUM_KINDS))]
+    # a timed-out job frozen after exactly k traced lines (never scheduled again): every intermediate state of
+    # the shared record, including "mcs_results written, sorted_reactants not yet", persists through all reads
+    for b in ([3] if tier == "quick" else range(len(ENUM_BATCHES))):
+        nch = 4
+        for ch in range(nch):
+            plans.append({"property": "C11", "kind": "freeze_sweep", "rows": ENUM_BATCHES[b], "chunk": [ch, nch],
+                          "config": {"n_jobs": 1, "batch_size": None, "threshold": 0}, "sim": {"sched_seed": H(base_seed, "freeze", b) % (1 << 40)}})
     for b, k, nch in sel:
         for ch in range(nch):
             plans.append({
@@ -240,6 +247,35 @@ def execute(plan):
         out["sample"] = {"rows": rows_in, "config": plan["config"], "faults_fired": res["fired"], "probes": res["probes"],
                          "affected": res["affected"], "outcomes": [[r["solved"], r["solved_by"], r["issue"][:40]] for r in (res["rows"] or [])]}
         return out
+    if plan["kind"] == "freeze_sweep":
+        jobs = []
+        for j in twin.get("jobs", []):
+            if j[0] == "mcs_job" and j[1] not in jobs:
+                jobs.append(j[1])
+        ch, nch = plan["chunk"]
+        vs, nontriv, n = [], [], 0
+        for job in jobs:
+            for k in range(4, 22):
+                n += 1
+                if n % nch != ch:
+                    continue
+                sim = common.clone(plan["sim"])
+                sim["faults"] = {"explicit": [{"site": "mcs_job", "key": job, "kind": "timeout", "lines": k, "q": 0.0}], "zombie_q": 0.0}
+                res = runner.run_once({"rows": rows_in, "config": plan["config"], "sim": sim, "tap": True})
+                out["runs"] += 1
+                _reach_probes(res)
+                out["summary"].append(common.run_summary(res))
+                v, _ = judge(rows_in, res, twin, thr, where="[job %s frozen after %d lines] " % (job[1], k), bs=plan["config"].get("batch_size"))
+                for x in v:
+                    x["subplan"] = {"property": "C11", "kind": "faulty", "order": "twin_first", "rows": rows_in, "config": plan["config"], "sim": sim}
+                vs += v
+                nontriv.append("%016x" % H(rows_in, job, k))
+                if len(vs) > 5:
+                    break
+        out["violations"] = vs
+        out["nontrivial_many"] = nontriv
+        out["sample"] = {"rows": rows_in, "freeze_sweep_jobs": len(jobs), "lines": [4, 21], "chunk": plan["chunk"]}
+        return out
     # enumerate: all subsets of the jobs of this batch, chunked
     site, fault = ENUM_KINDS[plan["enum_kind"]]
     jobs = []
@@ -287,7 +323,7 @@ def explicit_faults(plan, result):
 
 
 def shrink(plan):
-    if plan["kind"] == "enumerate":
+    if plan["kind"] in ("enumerate", "freeze_sweep"):
         return
     rows = plan["rows"]
     n = len(rows)
